@@ -314,6 +314,26 @@ def exec_plan(binary, ops, env=None, timeout=300, header=None, args=None):
     return out
 
 
+def exec_commands(binary, cmds, env=None, args=None, timeout=3600):
+    """Send worker commands (e.g. the RUNS chunks a seeded worker executed since it started) to a fresh worker.
+    Returns the set of (run, sig) candidates it reported, deaths included."""
+    w = Worker(binary, 400 + (os.getpid() + threading.get_ident()) % 90, env, tag="c%d" % (threading.get_ident() % 100000), args=args)
+    found = set()
+    try:
+        for c in cmds:
+            lines, death = command(w, c, timeout=timeout, stall=300)
+            for l in lines:
+                if l.startswith("CAND "):
+                    kv = dict(x.split("=", 1) for x in l[5:].split(" ", 1))
+                    found.add((int(kv["run"]), kv["sig"]))
+            if death is not None:
+                found.add((death["run"], "death:%s:%s" % (death["label"] or "?", cause_of(death["rc"]))))
+                break
+    finally:
+        w.close()
+    return found
+
+
 def ddmin(ops, test, budget=400):
     """Greedy delta debugging over a list: returns a smaller list for which test(list) is True.
     test is only called on candidates; the input is assumed to satisfy it."""
@@ -392,7 +412,7 @@ def same_violation(a, b):
 
 def process_candidates(prop, engine, binary, cands, get_plan, env=None, header=None, max_report=12, min_budget=300,
                        exec_timeout=300, simplify=None, args=None, log=print, pin_first=False, context_plan=None,
-                       fresh_process_is_truth=False):
+                       fresh_process_is_truth=False, context_cmds=None):
     """Confirm, minimise and write replay files for candidate violations.
     Returns (violations[list of dict(sig, path)], known[list of dict], harness_errors[list of str])."""
     known = load_known_findings()
@@ -430,6 +450,34 @@ def process_candidates(prop, engine, binary, cands, get_plan, env=None, header=N
                     plan, r1, r2, needs_context = cplan, x1, x2, True
                     log("candidate %s (run %s) reproduces only behind %d earlier run(s) of the same process" % (sig, c["run"], k))
                 break
+        if context_cmds and not needs_context and r1["sig"] == r2["sig"] and r1["hash"] == r2["hash"] and r1["sig"] != sig and c.get("ctx"):
+            # last resort: re-issue the very commands the candidate's worker process had executed since it started
+            # (same plan generation, same allocations, same threads): exact by construction if the worker is deterministic
+            cmds = context_cmds(c)
+            hit = lambda cs: any(rn == c["run"] and same_violation(sg, sig) for rn, sg in exec_commands(binary, cs, env, args=args))
+            if hit(cmds) and hit(cmds):
+                k = 0
+                while len(cmds) > 1 and k < 12:      # drop the oldest chunks while it still shows
+                    k += 1
+                    half = cmds[len(cmds) // 2:]
+                    if hit(half):
+                        cmds = half
+                    elif hit(cmds[1:]):
+                        cmds = cmds[1:]
+                    else:
+                        break
+                rdir = os.path.join(OUT, "replays", prop)
+                os.makedirs(rdir, exist_ok=True)
+                safe = "".join(ch if ch.isalnum() or ch in "-_." else "_" for ch in sig)[:100]
+                path = os.path.join(rdir, "%s-run%s.json" % (safe, c["run"]))
+                with open(path, "w") as f:
+                    json.dump({"property": prop, "engine": engine + "-cmds", "signature": sig, "run_index": c["run"], "seed": c.get("seed"), "commands": cmds,
+                               "note": "reproduces only as part of the command sequence its worker process executed (depends on process history incl. heap layout); replay re-issues these commands to a fresh worker",
+                               "occurrences_in_batch": len(by_sig[sig])}, f, indent=1)
+                    f.write("\n")
+                log("candidate %s (run %s) reproduces by re-issuing %d worker command(s)" % (sig, c["run"], len(cmds)))
+                violations.append({"sig": sig, "path": path, "ops": len(cmds), "from_ops": len(context_cmds(c)), "count": len(by_sig[sig])})
+                continue
         if fresh_process_is_truth and not needs_context and r1["sig"] == r2["sig"] and r1["hash"] == r2["hash"] and r1["sig"] == "OK":
             # the property speaks about one process per run: what a long-lived worker saw after thousands of earlier
             # runs, but a fresh process does not show (twice, identically), is an artefact of process reuse
